@@ -10,6 +10,7 @@ import (
 	"os"
 	"path"
 	"path/filepath"
+	"sort"
 	"strings"
 	"sync"
 	"syscall"
@@ -338,6 +339,8 @@ func (l *localFS) KeysPrefix(_ context.Context, token, prefix, delimiter string,
 			}
 			matches = deduped
 		}
+		// keys are listed in lexicographic order, like object stores do (Walk sorts per directory only)
+		sort.Strings(matches)
 		l.glob[prefix], search = matches, matches
 	}
 
